@@ -633,7 +633,7 @@ package cmd
 //@   props C20 C16
 //@   requires r != nil && highRndMax >= 0 && highRndMax < 4611686018427387904 && (len(highPts) > 0 ==> highRet != nil && highRet.secondsPerPoint > 0) && r.secondsPerPoint > 0
 //@   ensures any: true
-//@   check[C20] covered_no_random: len(highPts) > 0 && t >= highPts[0].Time ==> !called("(*math/rand.Rand).Intn")
+//@   check[C20] covered_no_random: len(highPts) > 0 && t >= highPts[0].Time ==> !called("(*Rand).Intn")
 //@ loop randomValWithHighSum#0
 //@   invariant bounds: 0 <= iter && iter <= len(highPts)
 
